@@ -145,4 +145,68 @@ def run_shard(spec):
         if _hetero(a) or _hetero(b):
             col.count("pairs_with_heterogeneous_array")
         judge(col, a, b, "random", False)
+    # long documents: hundreds of items / keys / lines, so that indices, counts and integer VALUES leave the
+    # small-number range (CPython caches ints up to 256; an identity comparison only shows beyond it)
+    for _ in range(max(20, spec["random"] // 50)):
+        a, b = long_pair(r)
+        judge(col, a, b, "long", False)
     return col.result()
+
+
+def long_pair(r):
+    n = r.choice([257, 300, 300, 520, 700])
+    kind = r.choice(["ints", "strs", "mixed", "dict", "lines"])
+    if kind == "ints":
+        a = [r.choice([i, i, i * 3, 1000 + i]) for i in range(n)]
+    elif kind == "strs":
+        a = ["item %d" % (i % r.choice([7, 50, 10 ** 6])) for i in range(n)]
+    elif kind == "mixed":
+        a = [r.choice([i, "s%d" % i, [i], {"k": i}, float(i), i % 2 == 0]) for i in range(n)]
+    elif kind == "dict":
+        a = {"key%04d" % i: r.choice([i, "v%d" % i, [i, i + 1]]) for i in range(n)}
+    else:
+        a = "".join("line %d of a long text\n" % (i % r.choice([5, 10 ** 6])) for i in range(n))
+    if kind == "dict":
+        b = dict(a)
+        for _ in range(r.randrange(1, 8)):
+            k = "key%04d" % r.randrange(n + 20)
+            c = r.random()
+            if c < 0.3:
+                b.pop(k, None)
+            elif c < 0.6 and isinstance(b.get(k), list):
+                b[k] = b[k] + [r.randrange(300, 900)]
+            else:
+                b[k] = r.choice([r.randrange(1000), "new", b.get(k, 0) if not isinstance(b.get(k), int) else float(b[k])])
+        return a, b
+    items = a.splitlines(True) if kind == "lines" else list(a)
+    out = list(items)
+    for _ in range(r.randrange(1, 9)):
+        k = r.choice([r.randrange(len(out)), len(out) - r.randrange(1, min(40, len(out)))])
+        c = r.random()
+        if c < 0.3:
+            del out[k:k + r.choice([1, 1, 2, 5])]
+        elif c < 0.6:
+            new = ("inserted %d\n" % r.randrange(10 ** 6)) if kind == "lines" else r.choice([r.randrange(257, 5000), "ins%d" % r.randrange(10 ** 6)])
+            out.insert(k, new)
+        elif c < 0.7 and k + 1 < len(out):
+            out[k], out[k + 1] = out[k + 1], out[k]
+        else:
+            v = out[k]
+            if kind == "lines":
+                out[k] = v.rstrip("\n") + " edited\n"
+            elif isinstance(v, bool):
+                out[k] = int(v)
+            elif isinstance(v, int):
+                out[k] = r.choice([float(v), v + 1000, str(v)])
+            elif isinstance(v, str):
+                out[k] = v + "!"
+            elif isinstance(v, list):
+                out[k] = v + [r.randrange(300, 999)]
+            elif isinstance(v, dict):
+                out[k] = dict(v, extra=r.randrange(300, 999))
+            else:
+                out[k] = int(v)
+    if r.random() < 0.3:
+        out.append(("appended\n" if kind == "lines" else r.randrange(257, 9999)))
+    b = "".join(out) if kind == "lines" else out
+    return a, b
